@@ -32,7 +32,7 @@ ASSUME = [
     "behaviour outside the model, sampled by the correspondence runs only",
     "a route dictionary has distinct paths (it is a dict); handler behaviour is an arbitrary function of the parameters (the theorems quantify over it)",
     "KGFnWrapper finds the symbol a handler is bound to by object identity; aliasing one function under two symbols is not generated",
-    "np.asarray on a decoded JSON list: homogeneous -> array (intact), numbers mixed with strings/bools -> coerced, ragged -> raises (modelled by `deliver`, sampled)",
+    "KGFnWrapper converts a decoded JSON list with the backend's kg_asarray (taken to keep every list a list of its elements; the pre-fix np.asarray behaviour is modelled by `deliver old_wflags`) and null as :undefined; JSON true/false and the numbers 1/0 are the same Klong value",
     "numbers in generated JSON are multiples of 0.25 (exact in binary64); number text conversion is assumed",
     "no wall-clock in verdicts: completion is detected by a sentinel message / an answered request; time-outs (20 s) only bound a hang",
 ]
@@ -200,10 +200,33 @@ def generate():
         ok &= "result = await result_future" in rc
         ex = ast.unparse(astlib.find_func(m, "execute_server_command"))
         ok &= "r = klong[sym]" in ex and "response = r(nc, command)" in ex
-        w = astlib.find_func(astlib.find_class(astlib.module("klongpy/types.py"), "KGFnWrapper"), "__call__")
-        ok &= ast.unparse(w).count("fn_args = [np.asarray(x) if isinstance(x, list) else x for x in args]") == 2
         return ok
     flag("ws_listen_shape_ok", ws_shape)
+
+    def conv():
+        """how KGFnWrapper converts the arguments: (lists through kg_asarray, None -> KLONG_UNDEFINED)"""
+        cls = astlib.find_class(astlib.module("klongpy/types.py"), "KGFnWrapper")
+        w = ast.unparse(astlib.find_func(cls, "__call__"))
+        if "asarray" in w:
+            # conversion written out in __call__ (the code before 3618fda): np.asarray, None passed on
+            if w.count("fn_args = [np.asarray(x) if isinstance(x, list) else x for x in args]") != 2:
+                raise ShapeError("KGFnWrapper.__call__: unknown inline conversion")
+            return False, False
+        if w.count("fn_args = self._convert_args(args)") != 2 or w.count("[*fn_args]") != 2:
+            raise ShapeError("KGFnWrapper.__call__: both calls must convert with _convert_args")
+        c = astlib.body_no_doc(astlib.find_func(cls, "_convert_args"))
+        if [ast.unparse(x) for x in c[:-1]] != ["backend = self.klong._backend"] or not isinstance(c[-1], ast.Return):
+            raise ShapeError("_convert_args: shape")
+        r = ast.unparse(c[-1].value)
+        if r == "[KLONG_UNDEFINED if x is None else backend.kg_asarray(x) if isinstance(x, list) else x for x in args]":
+            return True, True
+        if r == "[backend.kg_asarray(x) if isinstance(x, list) else x for x in args]":
+            return True, False
+        if r == "[np.asarray(x) if isinstance(x, list) else x for x in args]":
+            return False, False
+        raise ShapeError("_convert_args: unknown conversion %s" % r[:80])
+    flag("wrapper_uses_kg_asarray", lambda: conv()[0])
+    flag("none_is_undefined", lambda: conv()[1])
 
     def enc_shape():
         m = astlib.module(WS)
@@ -312,13 +335,21 @@ def gen_web(rng, idx):
             m, p = rng.choice(known) if known else ("get", "/")
             m = "post" if m == "get" else "get"                     # right path, other method
         k = rng.choice([0, 0, 1, 2, 3])
-        params = {kk: rng.choice(VALS) for kk in rng.sample(KEYS, k)}
+        params = [[kk, rng.choice(VALS)] for kk in rng.sample(KEYS, k)]
+        if params and rng.random() < 0.25:                       # a repeated key: dict() keeps its FIRST value
+            kk = rng.choice(params)[0]
+            params.insert(rng.randint(0, len(params)), [kk, rng.choice(VALS)])
         events.append(["req", m, p, params])
     return {"kind": "web", "id": idx, "defs": defs, "gets": gets, "posts": posts, "behavs": behavs, "events": events}
 
 
 def cps(s):
     return [ord(c) for c in s]
+
+
+def pairs(params):
+    """request parameters as a list of [key, value] (a dict in the fixed scenarios)"""
+    return [list(kv) for kv in params.items()] if isinstance(params, dict) else [list(kv) for kv in params]
 
 
 def sx_hv(h):
@@ -336,7 +367,7 @@ def sx_web(sc, flags="impl"):
     evs = ["events"]
     for e in sc["events"]:
         if e[0] == "req":
-            evs.append(["req", e[1], cps(e[2]), [[cps(k), cps(v)] for k, v in e[3].items()]])
+            evs.append(["req", e[1], cps(e[2]), [[cps(k), cps(v)] for k, v in pairs(e[3])]])
         else:
             evs.append(["def", cps(e[1]), list(e[3])])
     return sx(["web", f, tbl("gets", sc["gets"]), tbl("posts", sc["posts"]), bs, evs])
@@ -406,7 +437,9 @@ def py_of_jv(x):
 
 SCALARS = [0, 1, -2, 2.5, -0.25, 1000, "", "hé", "abc", True, False]
 CLEAN_MSGS = [[1, 2, 3], [0.5, 2], ["a", "b"], [], [[1, 2], [3, 4]], {}, {"a": 1}, {"a": [1, {"c": None}], "b": "x"},
-              {"k": [1, "x", [2]]}, [{"a": 1}, {"b": None}], ["x"], [7]]
+              {"k": [1, "x", [2]]}, [{"a": 1}, {"b": None}], ["x"], [7],
+              [None], [1, None, "x"], [[1, 2], ["a", "b"]], [True, "x"], [[]], [1, [2, [3, [4, "deep"]]]], [[1, 2], [3]], [[], [1]],
+              [0.5, "0.5"], {"n": None}, [[1.5, 2], [3, 4]], [["a"], ["b", "c"]]]
 K_NULL, K_RAGGED, K_MIXED = None, [1, [2]], [1, "x"]
 SENTINEL = "__end__"
 
@@ -435,7 +468,7 @@ def gen_ws(rng, idx):
 # Klong source of a value to send, and the JSON tree it must arrive as
 SENDS = [("42", 42), ("-7", -7), ("2.5", 2.5), ('"hé"', "hé"), ('""', ""), ("[1 2 3]", [1, 2, 3]), ("[]", []),
          ('[1 [2 "x"]]', [1, [2, "x"]]), ('["a" "bc"]', ["a", "bc"]), ("[[1 2] [3 4]]", [[1, 2], [3, 4]]),
-         (':{["a" 1]}', {"a": 1}), (':{["k" [1 2]] ["s" "t"]}', {"k": [1, 2], "s": "t"}), ("0cx", "x"), (":sym", "sym"),
+         (':{["a" 1]}', {"a": 1}), (':{["k" [1 2]] ["s" "t"]}', {"k": [1, 2], "s": "t"}), ("0cx", "x"), (":sym", "sym"), ("0", 0),
          (':{["n" [1 [2 "y"]]]}', {"n": [1, [2, "y"]]}), ("[1.5 2]", [1.5, 2]),
          # computed numbers are numpy scalars, not Python ints
          ("-7", -7), ("1+1", 2), ("#[1 2 3]", 3), ("2.5*2", 5), ("1+[1 2]", [2, 3]), ("(1+1),,(0-3)", [2, -3])]
@@ -448,7 +481,8 @@ def fixed_scenarios():
          "behavs": [["const", "zero"], ["get", "k"], ["failo"], ["const", "neu"]],
          "events": [["req", "get", "/", {}], ["req", "get", "/a", {"k": "vé", "x y": "a&b=c d+e%"}], ["req", "post", "/f", {"k": "1"}],
                     ["req", "post", "/", {"k": "after failure"}], ["def", "h0", 'h0::{logf(3;x);"neu"}', ["fn", 1, 3]],
-                    ["req", "get", "/", {"a": ""}], ["req", "get", "/f", {}], ["req", "post", "/nope", {}]]}
+                    ["req", "get", "/", {"a": ""}], ["req", "get", "/f", {}], ["req", "post", "/nope", {}],
+                    ["req", "get", "/a", [["k", "first"], ["a", ""], ["k", "second"]]], ["req", "post", "/", [["x", "1"], ["k", ""], ["k", "2"], ["x", "3"]]]]}
     out = [w]
     # good -> failing (each error class) -> good redefinitions of a named handler; never-redefined failing handlers
     out.append({"kind": "web", "id": "fixed-redefine-into-failing",
@@ -483,6 +517,7 @@ sys.path.insert(0, %(verif)r)
 import numpy as np
 import aiohttp, websockets
 from klongpy.repl import create_repl
+from klongpy.core import KLONG_UNDEFINED
 
 scenarios = json.load(open(sys.argv[1]))
 klong, loops = create_repl()
@@ -535,6 +570,7 @@ async def run_web(sc, port):
                 await asyncio.get_event_loop().run_in_executor(None, K, e[2])
                 continue
             _, m, p, params = e
+            params = [tuple(kv) for kv in (params.items() if isinstance(params, dict) else params)]
             try:
                 if m == "get":
                     async with s.get(base + p, params=params) as r:
@@ -608,6 +644,8 @@ def canon(v):
         return [canon(x) for x in v]
     if isinstance(v, dict):
         return {str(k): canon(x) for k, x in v.items()}
+    if v is KLONG_UNDEFINED:
+        return None                       # JSON null arrives as :undefined
     if v is None or isinstance(v, (bool, int, float, str)):
         return v
     return {"__other__": type(v).__name__}
@@ -712,15 +750,14 @@ def msg_class(m):
         num = any(isinstance(x, (int, float)) and not isinstance(x, bool) for x in m)
         st = any(isinstance(x, str) for x in m)
         bo = any(isinstance(x, bool) for x in m)
-        if (st and (num or bo)) or (bo and num):
+        if st and (num or bo):
             return "C20-ws-mixed-array-message"
     return None
 
 
 def same_json(a, b):
     """by value, numbers numerically"""
-    if isinstance(a, bool) or isinstance(b, bool):
-        return a is b
+    # Klong has no boolean type: true/false and 1/0 are the same value
     if isinstance(a, (int, float)) and isinstance(b, (int, float)):
         return float(a) == float(b)
     if isinstance(a, list) and isinstance(b, list):
@@ -865,7 +902,7 @@ def run(tier, replay=None):
                           {"broken_obligation": proof["broken"], "coq_error": proof["error"], "generated": chk.generated_text}, no_input=True)
     return chk.finish(
         rule="web: seeded scenarios of <=3 GET + <=3 POST routes (named / inline / arity-2 / arity-0 / projection / non-function handlers; const, count, lookup and raising bodies), "
-             "3-9 events each (requests to registered, unknown and wrong-method paths with empty / several / non-ASCII / URL-special parameters, handler redefinitions), then .webc and a refused connect, "
+             "3-9 events each (requests to registered, unknown and wrong-method paths with empty / several / non-ASCII / URL-special parameters and repeated keys, handler redefinitions), then .webc and a refused connect, "
              "against the real aiohttp server started by .web; ws: seeded message sequences over all JSON kinds pushed by an in-process websockets server, then values sent through the connection. "
              "distinct = distinct (route kinds, event kinds) / (message class sequence); non-trivial = at least one handled request / one delivered message",
         trusted_base=TRUSTED, assumptions=ASSUME,
